@@ -2,7 +2,9 @@
 
   request   (run <impl> (<event> ...) <crash>)
     impl    (impl <staged: true|false> <keyFirst: true|false>)
-    event   <step> | (crash <step> <k> none|<cut>)     a step run to its end / a step during which the process dies
+    event   <step> | (crash <step> <k> none|<cut>) | (fault <step> <j>)
+            a step run to its end / a step during which the process dies / a step hit by a transient I/O fault at its
+            j-th atomic micro-operation (it raises, the process lives on)
     step    (publish <dirProj> <name> <version> (file (<byte> ...)))
             (publish <dirProj> <name> <version> (dir ((<i> (<byte> ...)) ...)))
             (train <proj> <version> <ordinal> ((<sid> (<byte> ...)) ...))
@@ -10,17 +12,19 @@
             (the event at that index must be a plain step; the events before it are played, then the step is killed)
   answer    (ok (<outcome> ...) (<fact> ...) <wf> (<entry> ...))  outcomes of the played events, view of the final
             tree, whether the final model tree is well formed (Fs.WF), the raw final tree
-    outcome (ok (<call> ...)) | (err invalid|mismatch|os (<call> ...)) | crashed      call = (<op> ...)
+  request   (frun <impl> (<event> ...) (<event index> <j>))   the events before the index are played, then the plain step at
+            the index is hit by a fault at its j-th atomic micro-operation; same answer
+    outcome (ok (<call> ...)) | (err invalid|mismatch|os (<call> ...)) | crashed | faulted     call = (<op> ...)
     fact    (rel p v <node>) (member p v i <node>) (gen p v g (ok ord (sid ...))|corrupt) (state p v g sid <node>|missing)
     entry   (<path> <node>)
 
   request   (hrun <impl> (<hevent> ...) <crash>)     several handles in several processes (ForML.Model.RegistryHandles)
-    hevent  <hop> | (die <hop> <k> none|<cut>)
+    hevent  <hop> | (die <hop> <k> none|<cut>) | (fault <hop> <j>)
     hop     (open <h> <proc> <proj> none|<version> none|<generation>) | (publish <h> <name> <version> <pkg>)
             | (begin <h> <ordinal> <n>) | (dump <h> <sid> (<byte> ...)) | (commit <h>) | (look <h>)
     crash   none | (<event index> <k> none|<cut>)   the event at that index must be a plain <hop>
   answer    (ok (<houtcome> ...) (<fact> ...) <wf> (<entry> ...))
-    houtcome (ok (<call> ...) none|notag|(tag ord (sid ...) ((<byte> ...) ...))) | (err <kind> (<call> ...)) | died
+    houtcome (ok (<call> ...) none|notag|(tag ord (sid ...) ((<byte> ...) ...))) | (err <kind> (<call> ...)) | died | faulted
              (look: the tag and, in its order, the bytes of the states loaded after it)
 
   request   (vrun <impl> (<step> ...))               the volatile registry (ForML.Model.RegistryVolatile)
@@ -54,6 +58,7 @@ def step? : Sexp → Option Step
 def ev? : Sexp → Option Ev
   | .list [.atom "crash", st, k, .atom "none"] => do pure (.crash (← step? st) (← k.nat?) none)
   | .list [.atom "crash", st, k, c] => do pure (.crash (← step? st) (← k.nat?) (some (← c.nat?)))
+  | .list [.atom "fault", st, j] => do pure (.fault (← step? st) (← j.nat?))
   | x => (step? x).map Ev.step
 
 def bool? : Sexp → Option Bool
@@ -138,6 +143,9 @@ def playAll (impl : Impl) : Fs → List Ev → Fs × List Sexp
   | fs, .crash s k cut :: rest =>
     let r := playAll impl (crashIn impl fs s k cut) rest
     (r.1, .atom "crashed" :: r.2)
+  | fs, .fault s j :: rest =>
+    let r := playAll impl (faultIn impl fs s j) rest
+    (r.1, .atom "faulted" :: r.2)
 
 def answer (outs : List Sexp) (fs : Fs) : Sexp :=
   .list [.atom "ok", .list outs, .list (factsOf fs), Sexp.ofBool (decide (WF fs)), .list (treeOf fs)]
@@ -175,6 +183,9 @@ def hev? : Sexp → Option HEv
   | .list [.atom "die", o, k, c] => do
     let (h, op) ← hop? o
     pure (.die h op (← k.nat?) (← optNat? c))
+  | .list [.atom "fault", o, j] => do
+    let (h, op) ← hop? o
+    pure (.fault h op (← j.nat?))
   | x => (hop? x).map (fun (h, op) => HEv.run h op)
 
 def herrS : HErr → Sexp
@@ -208,6 +219,9 @@ def playAllH (impl : Impl) : World → List HEv → World × List Sexp
   | w, .die h op k cut :: rest =>
     let r := playAllH impl (applyH impl w (.die h op k cut)) rest
     (r.1, .atom "died" :: r.2)
+  | w, .fault h op j :: rest =>
+    let r := playAllH impl (applyH impl w (.fault h op j)) rest
+    (r.1, .atom "faulted" :: r.2)
 
 def vFactsOf (st : VReg) : List Sexp :=
   st.arts.flatMap (fun e =>
@@ -230,7 +244,20 @@ def vPlayAll (impl : Impl) : VReg → List Step → VReg × List Sexp
     let r := vPlayAll impl o.st rest
     (r.1, outcomeS ⟨o.st.fs, o.calls, o.err⟩ :: r.2)
 
+def stepFault : Sexp → Sexp
+  | .list [.atom "frun", im, .list evs, .list [i, j]] =>
+    match impl? im, evs.mapM ev?, i.nat?, j.nat? with
+    | some impl, some evs, some i, some j =>
+      match evs[i]? with
+      | some (.step s) =>
+        let r := playAll impl Fs.empty (evs.take i)
+        answer r.2 (faultIn impl r.1 s j)
+      | _ => .atom "bad-op"
+    | _, _, _, _ => .atom "bad-op"
+  | _ => .atom "bad-op"
+
 def stepC05All : Sexp → Sexp
+  | .list (.atom "frun" :: rest) => stepFault (.list (.atom "frun" :: rest))
   | .list [.atom "vrun", im, .list steps] =>
     match impl? im, steps.mapM step? with
     | some impl, some steps =>
